@@ -186,6 +186,12 @@ def _is_sink(ctx, fi, cls, c, p, depth):
         return True
     if dotted(f) == 'print' and any(is_name(a, p) for a in c.args):
         return True
+    if isinstance(f, ast.Name) and any(is_name(a, p) for a in c.args):
+        # a local alias of a bound write method:  write = sys.stdout.write; write(stdout)
+        from .common import local_assignments
+        vals = [v for v in local_assignments(fi.node).get(f.id, []) if isinstance(v, ast.AST)]
+        if vals and all(isinstance(v, ast.Attribute) and v.attr in ('write', 'writelines') for v in vals):
+            return True
     if isinstance(f, ast.Attribute) and is_name(f.value, 'self') and depth < 2:
         callee = ctx.model.find_method(cls, f.attr)
         if callee is not None:
